@@ -103,6 +103,9 @@ def run(ctx):
     ctx.rule('R-C16e', 'one rebalance step restores balance: for every AVL-valid configuration around a node with balance in -2..2 the step '
                        'yields balanced named nodes with exact heights, unchanged order and consistent parents', floor=1)
     ctx.rule('R-C16g', 'NULL-CONTRADICTION in iv_avl.c', floor=3)
+    ctx.rule('R-C16f', 'traversal: for every binary-tree shape of up to 6 nodes and every node, next / prev return the in-order neighbour '
+                       '(NULL at the ends) and min / max the extremes (shape interpretation of the traversal functions)', floor=4)
+    ctx.section(traversal)
     ctx.section(rotations)
     ctx.section(rebalance_step)
     ctx.section(pairing)
@@ -456,3 +459,62 @@ def _before(f, rc, e, h):
         return False if blk.succ[si] == h else s
     _, ev_in = forward(f, False, tr, lambda a, b: a or b, edge=edge)
     return bool(ev_in.get((e['_b'], e['_i'])))
+
+
+def _shapes(n):
+    """all binary tree shapes with n nodes as nested tuples (left, right)"""
+    if n == 0:
+        return [None]
+    out = []
+    for l in range(n):
+        for a in _shapes(l):
+            for b in _shapes(n - 1 - l):
+                out.append((a, b))
+    return out
+
+
+def traversal(ctx, maxn=6):
+    prog = ctx.prog
+    fns = {'next': 'iv_avl_tree_next', 'prev': 'iv_avl_tree_prev', 'min': 'iv_avl_tree_min', 'max': 'iv_avl_tree_max'}
+    bad = {k: [] for k in fns}
+    cases = {k: 0 for k in fns}
+    for n in range(0, maxn + 1):
+        for shape in _shapes(n):
+            H = Heap()
+            order = []
+            def build(t, parent):
+                if t is None:
+                    return NULL
+                me = 'n%d' % len(H.nodes)
+                H.node(me, left=NULL, right=NULL, parent=parent, height=1)
+                l = build(t[0], me)
+                order.append(me)
+                r = build(t[1], me)
+                H.nodes[me]['left'], H.nodes[me]['right'] = l, r
+                return me
+            root = build(shape, NULL)
+            H.node('T', root=root, compare=NULL)
+            for which in ('min', 'max'):
+                cases[which] += 1
+                try:
+                    got = Interp(prog, H).call(fns[which], ['T'])
+                except Stuck as s_:
+                    got = 'stuck: %s' % s_
+                want = (order[0] if which == 'min' else order[-1]) if order else NULL
+                if got != want:
+                    bad[which].append((shape, got, want))
+            for i, nd in enumerate(order):
+                for which, want in (('next', order[i + 1] if i + 1 < len(order) else NULL), ('prev', order[i - 1] if i > 0 else NULL)):
+                    cases[which] += 1
+                    try:
+                        got = Interp(prog, H).call(fns[which], [nd])
+                    except Stuck as s_:
+                        got = 'stuck: %s' % s_
+                    if got != want:
+                        bad[which].append((shape, 'node #%d -> %s' % (i, got), want))
+    for which in ('next', 'prev', 'min', 'max'):
+        f = prog.fn(fns[which])
+        b = bad[which]
+        ctx.ob('R-C16f', fns[which], not b, loc=f.loc,
+               detail=('%d cases; first failure: shape %s: %s, expected %s' % (cases[which], b[0][0], b[0][1], b[0][2])) if b else
+                      '%d (shape, node) cases up to %d nodes: every result is the in-order neighbour / extreme' % (cases[which], maxn), fn=f.q)
